@@ -68,11 +68,14 @@ def render_extxyz(rng, n):
     texts = []
     for k in range(n):
         natom = rng.randint(1, 5)
-        lines = [str(natom), f"Properties=species:S:1:pos:R:3 energy={-1.5 * k - 0.25:.4f} charge={k % 3 - 1}"]
+        # frames of one trajectory may declare different per-atom columns: species only, or species next to atomic numbers (Z)
+        with_z = k % 2 == 1
+        props = "species:S:1:pos:R:3" + (":Z:I:1" if with_z else "")
+        lines = [str(natom), f"Properties={props} energy={-1.5 * k - 0.25:.4f} charge={k % 3 - 1}"]
         for i in range(natom):
             sym = rng.choice(["H", "O", "C", "N"])
             x, y, z = (round(rng.uniform(-9, 9), 6) for _ in range(3))
-            lines.append(f"{sym} {x:12.6f} {y:12.6f} {z:12.6f}")
+            lines.append(f"{sym} {x:12.6f} {y:12.6f} {z:12.6f}" + (f" {dict(H=1, O=8, C=6, N=7)[sym]:3d}" if with_z else ""))
         texts.append("\n".join(lines) + "\n")
     return texts
 
